@@ -45,8 +45,9 @@ deriving Repr, DecidableEq
 inductive Action
   | send (dst delay id : Nat)        -- `send` / `send_in` on the gate chain to module `dst`
   | sched (delay id : Nat)           -- `schedule_in`
-  | spawn (tag sleep : Nat) (join loc : Bool)
-      -- `tokio::spawn(async { sleep(sleep).await; … })`, with `loc` `tokio::task::spawn_local` (+ `try_join`)
+  | spawn (tag sleep : Nat) (join loc must : Bool)
+      -- `tokio::spawn(async { sleep(sleep).await; … })`, with `loc` `tokio::task::spawn_local`; the handle
+      -- is given to `current().join` if `must`, else to `current().try_join` if `join`
   | shutdown                         -- `current().shutdown()`
   | restartIn (d : Nat)              -- `current().shutdow_and_restart_in(d)`
   | restartAt (t : Nat)              -- `current().shutdow_and_restart_at(t)`
@@ -101,7 +102,7 @@ inductive OKind
   | msg | start | end_ | reset | task | snd | sch | log | dwn | pan
   -- harness-only lines, never produced by the model (the driver's acceptance checker judges them):
   -- a task was spawned; `event_start` / `event_end` of the module's pass-through processing element
-  | spw | pes | pee
+  | spw | spm | trs | pes | pee   -- `spm`: spawned with the handle given to `current().join`; `trs`: task n resumes
 deriving Repr, DecidableEq
 
 /-- one observation line of the harness: module, kind, two arguments, `SimTime::now()` -/
@@ -115,13 +116,24 @@ deriving Repr, DecidableEq
 
 structure Task where
   tag : Nat
-  join : Bool
+  join : Bool          -- handle given to `try_join`
   loc : Bool           -- spawned with `spawn_local` (lives in the module's `LocalSet`)
+  mid : Option Nat     -- handle given to `join`: its position in the module's `must_join` list
+deriving Repr, DecidableEq
+
+/-- what a `JoinHandle` in `must_join` will answer at the end of the simulation -/
+inductive HState
+  | running      -- not finished: `JoinError { kind: NotFinished }`
+  | done
+  | paniced      -- `JoinError { kind: Paniced }`
+  | cancelled    -- the runtime was dropped by a shutdown: `JoinError { kind: Tokio }`
 deriving Repr, DecidableEq
 
 inductive ErrKind
   | panic       -- PanicError
   | join        -- JoinError { kind: Paniced }
+  | unfinished  -- JoinError { kind: NotFinished }
+  | tokio       -- JoinError { kind: Tokio } (the task was cancelled)
 deriving Repr, DecidableEq
 
 /-- per-module state -/
@@ -136,6 +148,7 @@ structure ModRt where
   ready : List Task                    -- woken by `bump`, not polled yet
   nextWakeup : Option Nat              -- `Driver::next_wakeup`; `none` = `SimTime::MAX`
   joinPanics : Nat                     -- `try_join` handles whose task panicked
+  must : List HState                   -- `must_join`, in registration order (never cleared by a shutdown)
   nextSerial : Nat                     -- the harness's per-sender message counter
   incarnation : Nat                    -- number of `reset` calls (the scripted module counts them)
 
@@ -196,6 +209,7 @@ structure ES where
   spawned : List (Nat × Task)
   req : Option (Option Nat)
   nextSerial : Nat
+  must : List HState
 
 def findLink (links : List Link) (src dst : Nat) : Option Nat :=
   links.findIdx? (fun l => l.src == src && l.dst == dst)
@@ -221,7 +235,11 @@ def runAction (env : Env) (inTask : Bool) (join : Bool) (es : ES) : Action → E
     ({ es with nextSerial := es.nextSerial + 1,
                obs := es.obs ++ [(⟨env.mi, .sch, some id, some m.serial, env.now⟩ : Obs)],
                buf := es.buf ++ [(KEvent.deliver env.mi m, env.now + delay)] }, false)
-  | .spawn tag sleep join loc => ({ es with spawned := es.spawned ++ [(sleep, Task.mk tag join loc)] }, false)
+  | .spawn tag sleep join loc must =>
+    if must then
+      ({ es with spawned := es.spawned ++ [(sleep, Task.mk tag false loc (some es.must.length))],
+                 must := es.must ++ [HState.running] }, false)
+    else ({ es with spawned := es.spawned ++ [(sleep, Task.mk tag join loc none)] }, false)
   | .shutdown =>
     ({ es with req := some none, obs := es.obs ++ [(⟨env.mi, .dwn, none, none, env.now⟩ : Obs)] }, false)
   | .restartIn d =>
@@ -259,7 +277,10 @@ def runTasks (env : Env) (prog : Prog) : List Task → ES → ES × Nat
   | t :: rest, es =>
     let es1 := { es with obs := es.obs ++ [(⟨env.mi, .task, some t.tag, none, env.now⟩ : Obs)] }
     let r := runActions env true t.join (prog.onTask t.tag) es1
-    let es2 := { r.1 with spawned := demote es.spawned.length t.loc r.1.spawned }
+    let es2 := { r.1 with spawned := demote es.spawned.length t.loc r.1.spawned,
+                          must := match t.mid with
+                            | some i => r.1.must.set i (if r.2 then HState.paniced else HState.done)
+                            | none => r.1.must }
     let r' := runTasks env prog rest es2
     (r'.1, (if r.2 && t.join then 1 else 0) + r'.2)
 
@@ -277,7 +298,8 @@ def registerAll (now : Nat) (sl : List (Nat × Task)) (sp : List (Nat × Task)) 
   sp.foldl (fun s p => insertSleeper s (now + p.1) p.2) sl
 
 def ES.start (m : ModRt) (chans : List ChanSt) : ES :=
-  { obs := [], buf := [], chans := chans, spawned := [], req := m.shutdownReq, nextSerial := m.nextSerial }
+  { obs := [], buf := [], chans := chans, spawned := [], req := m.shutdownReq, nextSerial := m.nextSerial,
+    must := m.must }
 
 structure ExecResult where
   mod : ModRt
@@ -290,14 +312,15 @@ def exec (env : Env) (m : ModRt) (entry : Obs) (acts : List Action) (es : ES) : 
   let es := { es with obs := es.obs ++ [entry] }
   let r := runActions env false false acts es
   if r.2 then
-    { mod := { m with unpolled := m.unpolled ++ r.1.spawned, shutdownReq := r.1.req, nextSerial := r.1.nextSerial },
+    { mod := { m with unpolled := m.unpolled ++ r.1.spawned, shutdownReq := r.1.req, nextSerial := r.1.nextSerial,
+                      must := r.1.must },
       es := { r.1 with spawned := [] }, panicked := true }
   else
     let t := runTasks env m.prog (localsFirst (·.loc) m.ready) r.1
     let es := t.1
     { mod := { m with unpolled := [], ready := [],
                       sleepers := registerAll env.now m.sleepers (localsFirst (·.2.loc) (m.unpolled ++ es.spawned)),
-                      joinPanics := m.joinPanics + t.2,
+                      joinPanics := m.joinPanics + t.2, must := es.must,
                       shutdownReq := es.req, nextSerial := es.nextSerial },
       es := { es with spawned := [] }, panicked := false }
 
@@ -307,7 +330,7 @@ def execIdle (env : Env) (m : ModRt) (es : ES) : ExecResult :=
   let es := t.1
   { mod := { m with unpolled := [], ready := [],
                     sleepers := registerAll env.now m.sleepers (localsFirst (·.2.loc) (m.unpolled ++ es.spawned)),
-                    joinPanics := m.joinPanics + t.2,
+                    joinPanics := m.joinPanics + t.2, must := es.must,
                     shutdownReq := es.req, nextSerial := es.nextSerial },
     es := { es with spawned := [] }, panicked := false }
 
@@ -418,6 +441,7 @@ def State.consumeShutdown (s : State) (mi : Nat) (m : ModRt) : State :=
                                nextWakeup := (match m.nextWakeup with
                                  | some t => if t ≤ s.fes.cur then none else some t
                                  | none => none),
+                               must := m.must.map (fun h => if h = HState.running then HState.cancelled else h),
                                incarnation := m.incarnation + 1 }
     let s := { s with mods := s.mods.set mi m', trace := s.trace ++ [(⟨mi, .reset, none, none, s.fes.cur⟩ : Obs)] }
     match restart with
@@ -496,6 +520,14 @@ def State.simStart (s : State) : State :=
       | some m => if stage < m.stages && m.active then s.moduleEvent mi (.simStart stage) else s
       | none => s) s) s
 
+/-- the loop over `must_join` in `ModuleRef::at_sim_end` -/
+def mustErrs (mi : Nat) (l : List HState) : List (ErrKind × Nat) :=
+  l.filterMap fun h => match h with
+    | .running => some (ErrKind.unfinished, mi)
+    | .paniced => some (ErrKind.join, mi)
+    | .cancelled => some (ErrKind.tokio, mi)
+    | .done => none
+
 /-- `activate(); ModuleRef::at_sim_end(); deactivate(rt)` for one module — no `active` check, no
     `buf_process`: overdue tasks resume, the emissions stay in the buffer.  An uncaught panic of the
     callback returns before the join handles are looked at; after a caught one the runnable tasks
@@ -510,9 +542,11 @@ def State.moduleEnd (s : State) (mi : Nat) : State :=
     let c := catchPanic mi r
     let uncaught := !c.2.isEmpty
     let r2 := if r.panicked && !uncaught then execIdle env c.1 r.es else { r with mod := c.1 }
-    let errs := if uncaught then c.2 else List.replicate r2.mod.joinPanics (ErrKind.join, mi)
+    let errs := if uncaught then c.2
+      else List.replicate r2.mod.joinPanics (ErrKind.join, mi) ++ mustErrs mi r2.mod.must
     let w := r2.mod.wakeDecision
-    let s := { s with mods := s.mods.set mi { w.1 with joinPanics := if uncaught then w.1.joinPanics else 0 },
+    let s := { s with mods := s.mods.set mi { w.1 with joinPanics := if uncaught then w.1.joinPanics else 0,
+                                                       must := if uncaught then w.1.must else [] },
                       chans := r2.es.chans, trace := s.trace ++ r2.es.obs,
                       errors := s.errors ++ errs, buf := s.buf ++ r2.es.buf, cur := none }
     match w.2 with
@@ -538,7 +572,7 @@ def initSerial (k : Nat) : Nat := serialOf 15 k
 
 def ModCfg.init (c : ModCfg) : ModRt :=
   { prog := c.prog, stages := c.stages, catches := c.catches, active := true, shutdownReq := none,
-    unpolled := [], sleepers := [], ready := [], nextWakeup := none, joinPanics := 0, nextSerial := 0,
+    unpolled := [], sleepers := [], ready := [], nextWakeup := none, joinPanics := 0, must := [], nextSerial := 0,
     incarnation := 0 }
 
 def State.init (cfg : Config) : State :=
